@@ -12,7 +12,7 @@ Local Arguments Z.sub : simpl never.
 Local Arguments Z.of_nat : simpl never.
 Local Arguments Nat.eqb : simpl nomatch.
 
-Ltac simpl_st := cbn [active tvar shutdown wg closed looppend ph pendt firedt nextg accepted serving finished
+Ltac simpl_st := cbn [active tvar shutdown wg closed looppend ph pendt firedt nextg accepted serving finished started
                       clock armlog last_count last_done late sessions] in *.
 
 Ltac stepcases H :=
@@ -161,8 +161,13 @@ Proof.
       apply Nat.eqb_eq in E0. subst c0. intros _. apply Iacc. auto.
     + intros c0 x. cbn [lookup]. destruct (Nat.eqb c c0) eqn:E0; [|apply Ise].
       apply Nat.eqb_eq in E0. subst c0. intros [= <-]. reflexivity.
+  - (* Start *)
+    destruct (mem c (serving s) && negb (mem c (started s))) eqn:EM; [|discriminate]. injection H as <-.
+    constructor; unfold open_conns in *; simpl_st; auto.
+    + fresh_weaken If.
+    + lia.
   - (* Serve *)
-    destruct (mem c (serving s)) eqn:EM; [|discriminate].
+    destruct (mem c (serving s) && mem c (started s)) eqn:EM; [|discriminate].
     destruct (lookup c (sessions s)) as [x|] eqn:EX; [|discriminate].
     injection H as <-.
     constructor; unfold open_conns in *; simpl_st; auto.
@@ -338,17 +343,35 @@ Lemma stale_checked :
   closed s = false /\ closed (exec code_cfg s (Callback 1)) = false.
 Proof. vm_compute. auto. Qed.
 
+(* the serve-start hook refuses connection 1; 2 is held open; 3 comes and goes; the timer armed by its Done fires *)
+Definition w_late_count : list ev :=
+  [AcceptRet 1; Count 1; Done 1; AcceptRet 2; Count 2; Start 2; AcceptRet 3; Count 3; Start 3; Done 3; TimerFire 1; Callback 1]%nat.
+
+Lemma late_count_witness :
+  let s := run_late code_cfg (init code_cfg) w_late_count in
+  closed s = true /\ serving s = [2%nat] /\ active s = 0%Z /\ looppend s = None /\ late s = None
+  /\ active (run_late code_cfg (init code_cfg) [AcceptRet 1; Count 1; Done 1]%nat) = (-1)%Z.
+Proof. vm_compute. auto 10. Qed.
+
+Lemma late_count_code :
+  let s := run code_cfg (init code_cfg) w_late_count in
+  closed s = false /\ serving s = [2%nat] /\ active s = 1%Z /\ pendt s = [].
+Proof. vm_compute. auto. Qed.
+
+Lemma serve_needs_start k s c : mem c (started s) = false -> sessions (exec k s (Serve c)) = sessions s.
+Proof. intros H. unfold exec. cbn [step]. rewrite H, andb_false_r. reflexivity. Qed.
+
 (* ====================================================================================== *)
 (* Part 3: the timed run is an instance of the machine and meets the reference monitor  *)
 (* ====================================================================================== *)
 Definition ctl (s : st) :=
-  (active s, tvar s, shutdown s, wg s, closed s, looppend s, (ph s, pendt s, firedt s, nextg s, accepted s, serving s, finished s)).
+  (active s, tvar s, shutdown s, wg s, closed s, looppend s, (ph s, pendt s, firedt s, nextg s, accepted s, serving s, finished s, started s)).
 
 Definition is_serve (e : ev) : bool := match e with Serve _ => true | _ => false end.
 
 Lemma serve_ctl k s c : ctl (exec k s (Serve c)) = ctl s.
 Proof.
-  unfold exec. cbn [step]. destruct (mem c (serving s)); [|reflexivity].
+  unfold exec. cbn [step]. destruct (mem c (serving s) && mem c (started s)); [|reflexivity].
   destruct (lookup c (sessions s)); reflexivity.
 Qed.
 
@@ -358,7 +381,7 @@ Proof.
   cbn [run fold_left]. fold (run k (exec k s e) es). rewrite (IH H). destruct e; try discriminate. apply serve_ctl.
 Qed.
 
-Record sim (i : input) (t : tstate) (m : mon) : Prop := {
+Record simc (i : input) (t : tstate) (m : mon) : Prop := {
   s_inv : inv (cfg_of i) (t_s t);
   s_loop : looppend (t_s t) = None;
   s_fired : firedt (t_s t) = [];
@@ -371,8 +394,23 @@ Record sim (i : input) (t : tstate) (m : mon) : Prop := {
             then exists g, pendt (t_s t) = [g] /\ tvar (t_s t) = Some g /\ t_dl t = m_zero_at m + m_need m
             else pendt (t_s t) = [] }.
 
+Record sim (i : input) (t : tstate) (m : mon) : Prop := {
+  s_core : simc i t m;
+  s_hookn : t_hookn t = m_hookn m;
+  s_bound : t_bound t = m_bound m }.
+
+Lemma simc_ext i t m t' m' :
+  simc i t m -> t_s t' = t_s t -> t_now t' = t_now t -> t_dl t' = t_dl t ->
+  (m_open m', m_used m', m_now m', m_zero_at m', m_need m', m_stopped m') = (m_open m, m_used m, m_now m, m_zero_at m, m_need m, m_stopped m) ->
+  simc i t' m'.
+Proof.
+  intros [I HL HF HM HO HU HN HT] E1 E2 E3 E4. injection E4 as F1 F2 F3 F4 F5 F6.
+  constructor; rewrite ?E1, ?E2, ?E3, ?F1, ?F2, ?F3, ?F4, ?F5, ?F6; assumption.
+Qed.
+
 Lemma sim_init i : sim i (tinit i) (minit i).
 Proof.
+  constructor; [|reflexivity|reflexivity].
   constructor; unfold tinit, minit; cbn [t_s t_now t_dl m_open m_used m_now m_stopped m_zero_at m_need]; try reflexivity.
   - apply inv_init.
   - left. auto.
@@ -497,41 +535,41 @@ Proof.
   repeat split; try congruence.
 Qed.
 
-Lemma top_sim i t m o :
-  sim i t m ->
-  sim i (fst (top i t o)) (fst (mstep i m o)) /\ snd (top i t o) = snd (mstep i m o).
+Lemma start_same k s c :
+  let s' := exec k s (Start c) in
+  (active s', tvar s', shutdown s', wg s', closed s', looppend s', (ph s', pendt s', firedt s', nextg s', accepted s', serving s', finished s', sessions s'))
+  = (active s, tvar s, shutdown s, wg s, closed s, looppend s, (ph s, pendt s, firedt s, nextg s, accepted s, serving s, finished s, sessions s)).
+Proof. unfold exec. cbn [step]. destruct (mem c (serving s) && negb (mem c (started s))); reflexivity. Qed.
+
+Lemma open_core_simc i t m c :
+  simc i t m -> closed (t_s t) = false -> mem c (accepted (t_s t)) = false ->
+  simc i (set_s t (run (cfg_of i) (t_s t) [AcceptRet c; Count c])) (mopen m c).
 Proof.
-  intros [I HL HF HM HO HU HN HT].
-  destruct o as [c|cs|c|d].
-  - (* Open *)
-    cbn [top mstep]. rewrite <- HU.
-    assert (closed (t_s t) = m_stopped m) as HCS by (destruct HM as [(_ & -> & ->)|(_ & -> & -> & _)]; reflexivity).
-    rewrite <- HCS.
-    destruct (negb (closed (t_s t)) && negb (mem c (accepted (t_s t)))) eqn:G; cbn [fst snd]; (split; [|reflexivity]).
-    + apply andb_true_iff in G. destruct G as [G1 G2]. apply negb_true_iff in G1, G2.
+  intros [I HL HF HM HO HU HN HT] G1 G2. unfold set_s, mopen.
       destruct HM as [(HP & _ & HS)|(_ & HC & _)]; [|congruence].
       destruct (open_run (cfg_of i) (t_s t) c HP G1 HL G2) as (E1 & E2 & E3 & E4 & E5 & E6 & E7 & E8 & _).
       constructor; cbn [t_s t_now t_dl m_open m_used m_now m_stopped m_zero_at m_need]; try congruence.
       * apply inv_run, I.
       * left. auto.
       * rewrite E8, HO. reflexivity.
-      * exact E7.
+      * rewrite E7, HU. reflexivity.
       * rewrite E8, E5. rewrite andb_false_r. apply (disarm_pend_nil _ _ I).
-    + assert (closed (t_s t) = true \/ mem c (accepted (t_s t)) = true) as G'.
-      { apply andb_false_iff in G. destruct G as [G|G]; apply negb_false_iff in G; auto. }
-      rewrite (open_noop _ _ _ G' HL). constructor; cbn [t_s t_now t_dl]; auto.
-  - (* Talk *)
-    cbn [top mstep fst snd]. split.
-    + pose proof (serves_ctl (cfg_of i) _ (concat_serve (cfg_of i) (filter (is_open (t_s t)) cs)) (t_s t)) as C.
-      unfold ctl in C. injection C as C1 C2 C3 C4 C5 C6 C7 C8 C9 C10 C11 C12 C13.
-      constructor; cbn [t_s t_now t_dl]; try congruence.
-      * apply inv_run, I.
-      * rewrite C5, C12, C8, C2. exact HT.
-    + apply forallb_ext_eq. intros c. unfold is_open. now rewrite HO.
-  - (* Close *)
-    cbn [top mstep]. unfold is_open. rewrite <- HO.
-    destruct (mem c (serving (t_s t))) eqn:EM; cbn [fst snd]; (split; [|reflexivity]).
-    + destruct HM as [(HP & HC & HS)|(_ & _ & _ & HE)]; [|rewrite HE in EM; discriminate].
+Qed.
+
+Lemma start_simc i t m c : simc i t m -> simc i (set_s t (exec (cfg_of i) (t_s t) (Start c))) m.
+Proof.
+  intros [I HL HF HM HO HU HN HT].
+  pose proof (start_same (cfg_of i) (t_s t) c) as C. cbv zeta in C. injection C as C1 C2 C3 C4 C5 C6 C7 C8 C9 C10 C11 C12 C13 C14.
+  constructor; unfold set_s; cbn [t_s t_now t_dl]; try congruence.
+  - apply inv_exec, I.
+  - rewrite C5, C12, C8, C2. exact HT.
+Qed.
+
+Lemma close_core_simc i t m c :
+  simc i t m -> mem c (serving (t_s t)) = true -> simc i (close_core i t c) (mclose i m c).
+Proof.
+  intros [I HL HF HM HO HU HN HT] EM. unfold close_core, mclose. rewrite <- HO.
+    destruct HM as [(HP & HC & HS)|(_ & _ & _ & HE)]; [|rewrite HE in EM; discriminate].
       destruct (done_run (cfg_of i) (t_s t) c EM) as (E1 & E2 & E3 & E4 & E5 & E6 & E7 & E8 & E9).
       pose proof (i_shut _ _ I) as HSh. rewrite HC in HSh. rewrite HSh in E7, E8, E9. cbn [negb] in E7, E8, E9. rewrite andb_true_r in E7, E8, E9.
       apply mem_In in EM. pose proof (remove1_length c _ EM) as RL. pose proof (i_active _ _ I) as IA.
@@ -553,7 +591,50 @@ Proof.
         -- rewrite andb_false_r.
            assert ((active (t_s t) - 1 =? 0)%Z = false) as HZ by (apply Z.eqb_neq; cbn [length] in RL; unfold conn in *; lia).
            rewrite HZ in E8. cbn [andb] in E8. now rewrite E8.
-    + rewrite (done_noop _ _ _ EM), Nat.eqb_refl. constructor; cbn [t_s t_now t_dl]; auto.
+Qed.
+
+Lemma close_core_noop i t m c :
+  simc i t m -> mem c (serving (t_s t)) = false -> simc i (close_core i t c) m.
+Proof.
+  intros S EM. unfold close_core. rewrite (done_noop _ _ _ EM), Nat.eqb_refl. eapply simc_ext; eauto.
+Qed.
+
+Lemma top_simc i t m o :
+  simc i t m -> t_hookn t = m_hookn m -> t_bound t = m_bound m ->
+  simc i (fst (top i t o)) (fst (mstep i m o)) /\ snd (top i t o) = snd (mstep i m o).
+Proof.
+  intros S Hh Hb. pose proof S as [I HL HF HM HO HU HN HT].
+  destruct o as [c|cs|c|d].
+  - (* Open *)
+    cbn [top mstep fst snd]. rewrite <- HU, <- Hh, <- Hb.
+    assert (closed (t_s t) = m_stopped m) as HCS by (destruct HM as [(_ & -> & ->)|(_ & -> & -> & _)]; reflexivity).
+    rewrite <- HCS. split; [|reflexivity].
+    destruct (negb (closed (t_s t)) && negb (mem c (accepted (t_s t)))) eqn:G; cbn [andb].
+    + apply andb_true_iff in G. destruct G as [G1 G2]. apply negb_true_iff in G1, G2.
+      pose proof (open_core_simc i t m c S G1 G2) as S1.
+      destruct (negb (t_bound t) && nth (t_hookn t) (i_hook i) false).
+      * assert (mem c (serving (t_s (set_s t (run (cfg_of i) (t_s t) [AcceptRet c; Count c])))) = true) as EM.
+        { destruct HM as [(HP & _ & _)|(_ & HC & _)]; [|congruence].
+          destruct (open_run (cfg_of i) (t_s t) c HP G1 HL G2) as (_ & _ & _ & _ & _ & _ & _ & E8 & _).
+          unfold set_s. cbn [t_s]. rewrite E8. cbn [mem existsb]. now rewrite Nat.eqb_refl. }
+        pose proof (close_core_simc i _ _ c S1 EM) as S2. eapply simc_ext; [exact S2 | reflexivity..].
+      * change (run (cfg_of i) (t_s t) [AcceptRet c; Count c; Start c])
+          with (exec (cfg_of i) (t_s (set_s t (run (cfg_of i) (t_s t) [AcceptRet c; Count c]))) (Start c)).
+        pose proof (start_simc i _ _ c S1) as S2. eapply simc_ext; [exact S2 | reflexivity..].
+    + eapply simc_ext; [exact S | reflexivity..].
+  - (* Talk *)
+    cbn [top mstep fst snd]. split; [|f_equal].
+    + pose proof (serves_ctl (cfg_of i) _ (concat_serve (cfg_of i) (filter (is_live (t_s t)) cs)) (t_s t)) as C.
+      unfold ctl in C. injection C as C1 C2 C3 C4 C5 C6 C7 C8 C9 C10 C11 C12 C13 C14.
+      constructor; cbn [t_s t_now t_dl]; try congruence.
+      * apply inv_run, I.
+      * rewrite C5, C12, C8, C2. exact HT.
+    + apply forallb_ext_eq. intros c. unfold is_open. now rewrite HO.
+  - (* Close *)
+    cbn [top mstep fst snd]. unfold is_open. rewrite <- HO.
+    destruct (mem c (serving (t_s t))) eqn:EM; cbn [fst snd]; (split; [|reflexivity]).
+    + now apply close_core_simc.
+    + now apply close_core_noop.
   - (* Wait *)
     cbn [top mstep fst snd]. split; [|reflexivity].
     change (cf_idle (cfg_of i)) with (negb (i_idle i =? 0)) in HT.
@@ -579,10 +660,27 @@ Proof.
       change (cf_idle (cfg_of i)) with (negb (i_idle i =? 0)). now rewrite EC.
 Qed.
 
+Lemma top_sim i t m o :
+  sim i t m ->
+  sim i (fst (top i t o)) (fst (mstep i m o)) /\ snd (top i t o) = snd (mstep i m o).
+Proof.
+  intros [S Hh Hb]. destruct (top_simc i t m o S Hh Hb) as [S1 E1]. split; [|exact E1].
+  constructor; [exact S1 | |].
+  - destruct o; cbn [top mstep fst t_hookn m_hookn close_core]; try exact Hh;
+      try (destruct (mem c (m_open m)); exact Hh).
+    rewrite Hh, Hb. f_equal.
+    destruct S as [_ _ _ HM _ HU _ _]. rewrite <- HU.
+    destruct HM as [(_ & -> & ->)|(_ & -> & -> & _)]; reflexivity.
+  - destruct o; cbn [top mstep fst t_bound m_bound close_core]; try exact Hb;
+      try (destruct (mem c (m_open m)); exact Hb).
+    rewrite Hh, Hb. destruct S as [_ _ _ HM _ HU _ _]. rewrite <- HU.
+    destruct HM as [(_ & -> & ->)|(_ & -> & -> & _)]; reflexivity.
+Qed.
+
 
 Lemma probe_sim i t m ok : sim i t m -> probe_of i t ok = mprobe i m ok.
 Proof.
-  intros [_ _ _ HM _ _ _ _]. unfold probe_of, mprobe, is_returned.
+  intros [[_ _ _ HM _ _ _ _] _ _]. unfold probe_of, mprobe, is_returned.
   destruct HM as [(-> & -> & ->)|(-> & -> & -> & _)]; reflexivity.
 Qed.
 
@@ -597,6 +695,15 @@ Qed.
 
 Lemma probe_eqb_refl p : probe_eqb p p = true.
 Proof. unfold probe_eqb. rewrite !eqb_reflx. destruct (p_file p); cbn [opt_eqb]; [apply N.eqb_refl | reflexivity]. Qed.
+
+Lemma probe_safe_refl p : probe_safe p p = true.
+Proof.
+  unfold probe_safe. rewrite eqb_reflx, orb_true_r. destruct (p_ret p), (p_ok p); cbn [implb andb];
+    (destruct (p_file p); cbn [opt_eqb]; [apply N.eqb_refl | reflexivity]).
+Qed.
+
+Lemma mrun_length i ops : forall m, length (mrun i m ops) = length ops.
+Proof. induction ops as [|o ops IH]; intros m; cbn [mrun]; [reflexivity|]. destruct (mstep i m o). cbn [length]. now rewrite IH. Qed.
 
 Lemma list_eqb_refl {A} (e : A -> A -> bool) : (forall x, e x x = true) -> forall l, list_eqb e l l = true.
 Proof. intros H l. induction l as [|x l IH]; [reflexivity|]. cbn [list_eqb]. now rewrite H, IH. Qed.
@@ -627,16 +734,22 @@ Qed.
 
 Lemma serve_lookup k s c' c :
   lookup c (sessions (exec k s (Serve c'))) =
-  if Nat.eqb c' c && mem c' (serving s)
+  if Nat.eqb c' c && (mem c' (serving s) && mem c' (started s))
   then match lookup c (sessions s) with Some x => Some (serve_sess (cf_gate k) x) | None => None end
   else lookup c (sessions s).
 Proof.
-  unfold exec. cbn [step]. destruct (mem c' (serving s)); [|now rewrite andb_false_r].
+  unfold exec. cbn [step]. destruct (mem c' (serving s) && mem c' (started s)); [|now rewrite andb_false_r].
   destruct (lookup c' (sessions s)) as [x|] eqn:E; simpl_st.
   - rewrite lookup_update, E. rewrite andb_true_r. destruct (Nat.eqb c' c) eqn:E0; [|reflexivity].
     apply Nat.eqb_eq in E0. subst c'. now rewrite E.
   - rewrite andb_true_r. destruct (Nat.eqb c' c) eqn:E0; [|reflexivity]. apply Nat.eqb_eq in E0. subst c'. now rewrite E.
 Qed.
+
+Lemma started_serve k s c : started (exec k s (Serve c)) = started s.
+Proof. pose proof (serve_ctl k s c) as H. unfold ctl in H. now injection H. Qed.
+
+Lemma started_serves k es s : forallb is_serve es = true -> started (run k s es) = started s.
+Proof. intros H. pose proof (serves_ctl k es H s) as C. unfold ctl in C. now injection C. Qed.
 
 Lemma serving_serve k s c : serving (exec k s (Serve c)) = serving s.
 Proof. pose proof (serve_ctl k s c) as H. unfold ctl in H. now injection H. Qed.
@@ -649,28 +762,28 @@ Lemma oexh_serves k c es : forallb is_serve es = true -> forall s,
 Proof.
   induction es as [|e es IH]; intros H s Hx; [exact Hx|]. cbn [forallb] in H. apply andb_true_iff in H. destruct H as [He H].
   cbn [run fold_left]. fold (run k (exec k s e) es). apply (IH H). destruct e; try discriminate.
-  rewrite serve_lookup. destruct (Nat.eqb c0 c && mem c0 (serving s)); [|exact Hx].
+  rewrite serve_lookup. destruct (Nat.eqb c0 c && (mem c0 (serving s) && mem c0 (started s))); [|exact Hx].
   destruct (lookup c (sessions s)); [|exact I]. now apply serve_sess_exh.
 Qed.
 
 Lemma exhaust_run k c n : forall s,
-  mem c (serving s) = true ->
+  mem c (serving s) = true -> mem c (started s) = true ->
   match lookup c (sessions s) with Some x => (length (fst x) <= n)%nat | None => True end ->
   oexh (cf_gate k) (lookup c (sessions (run k s (repeat (Serve c) n)))).
 Proof.
-  induction n as [|n IH]; intros s HM HL.
+  induction n as [|n IH]; intros s HM HM' HL.
   - cbn [repeat run fold_left]. destruct (lookup c (sessions s)) as [x|]; [|exact I].
     unfold oexh, exh. destruct (fst x); [reflexivity | cbn [length] in HL; lia].
   - cbn [repeat run fold_left]. fold (run k (exec k s (Serve c)) (repeat (Serve c) n)).
     destruct (lookup c (sessions s)) as [x|] eqn:EX.
     + destruct (serve_one (cf_gate k) (fst x)) as [[o r]|] eqn:E1.
-      * apply IH; [now rewrite serving_serve|]. rewrite serve_lookup, Nat.eqb_refl, HM, EX. cbn [andb].
+      * apply IH; [now rewrite serving_serve | now rewrite started_serve |]. rewrite serve_lookup, Nat.eqb_refl, HM, HM', EX. cbn [andb].
         unfold serve_sess. rewrite E1. cbn [fst]. apply serve_one_shorter in E1. lia.
       * apply oexh_serves; [clear; induction n; [reflexivity | exact IHn]|].
-        rewrite serve_lookup, Nat.eqb_refl, HM, EX. cbn [andb oexh]. apply serve_sess_exh.
+        rewrite serve_lookup, Nat.eqb_refl, HM, HM', EX. cbn [andb oexh]. apply serve_sess_exh.
         unfold exh. now rewrite (serve_one_flat _ (fst x)), E1.
     + apply oexh_serves; [clear; induction n; [reflexivity | exact IHn]|].
-      rewrite serve_lookup, EX. now destruct (Nat.eqb c c && mem c (serving s)).
+      rewrite serve_lookup, EX. now destruct (Nat.eqb c c && (mem c (serving s) && mem c (started s))).
 Qed.
 
 Definition W (k : cfg) (talked pending : list conn) (s : st) : Prop :=
@@ -683,7 +796,7 @@ Definition W (k : cfg) (talked pending : list conn) (s : st) : Prop :=
 Lemma W_serve k tk pd s c' : W k tk pd s -> mem c' tk || mem c' pd = true -> W k tk pd (exec k s (Serve c')).
 Proof.
   intros HW Hin c. rewrite serve_lookup. specialize (HW c).
-  destruct (Nat.eqb c' c && mem c' (serving s)) eqn:E; [|exact HW].
+  destruct (Nat.eqb c' c && (mem c' (serving s) && mem c' (started s))) eqn:E; [|exact HW].
   apply andb_true_iff in E. destruct E as [E _]. apply Nat.eqb_eq in E. subst c'.
   destruct (lookup c (sessions s)) as [x|]; [|exact HW]. destruct HW as [H1 H2]. split.
   - pose proof (serve_sess_len (cf_gate k) x). lia.
@@ -697,20 +810,21 @@ Proof.
 Qed.
 
 Lemma W_talk k tk pd : forall l s,
-  W k tk pd s -> (forall c, In c l -> mem c pd = true /\ mem c (serving s) = true) ->
+  W k tk pd s -> (forall c, In c l -> mem c pd = true /\ mem c (serving s) = true /\ mem c (started s) = true) ->
   let s' := run k s (concat (map (talk_events k) l)) in
   W k tk pd s' /\ forall c, In c l -> oexh (cf_gate k) (lookup c (sessions s')).
 Proof.
   induction l as [|c1 l IH]; intros s HW Hl; cbn [map concat]; [split; [exact HW | easy]|].
   rewrite run_app. set (s1 := run k s (talk_events k c1)).
-  destruct (Hl c1 (or_introl eq_refl)) as [Hp1 Hs1].
+  destruct (Hl c1 (or_introl eq_refl)) as (Hp1 & Hs1 & Hst1).
   assert (W k tk pd s1) as HW1.
   { unfold s1, talk_events. now apply W_repeat. }
   assert (serving s1 = serving s) as HS1 by (apply serving_serves, talk_events_serve).
+  assert (started s1 = started s) as HS1' by (apply started_serves, talk_events_serve).
   destruct (IH s1 HW1) as [HW2 HE2].
-  { intros c Hc. rewrite HS1. apply Hl. now right. }
+  { intros c Hc. rewrite HS1, HS1'. apply Hl. now right. }
   split; [exact HW2|]. intros c [<-|Hc]; [|now apply HE2].
-  apply oexh_serves; [apply concat_serve|]. unfold s1, talk_events. apply exhaust_run; [exact Hs1|].
+  apply oexh_serves; [apply concat_serve|]. unfold s1, talk_events. apply exhaust_run; [exact Hs1 | exact Hst1 |].
   specialize (HW c1). destruct (lookup c1 (sessions s)); [|exact I]. apply HW.
 Qed.
 
@@ -734,28 +848,52 @@ Record V (i : input) (t : tstate) : Prop := {
 Lemma V_init i : V i (tinit i).
 Proof. constructor; [apply inv_init|]. intros c. reflexivity. Qed.
 
+Lemma V_ext i t t' : V i t -> t_s t' = t_s t -> t_talked t' = t_talked t -> V i t'.
+Proof. intros [I HW] E1 E2. constructor; rewrite ?E1, ?E2; assumption. Qed.
+
+Lemma V_exec i t e :
+  V i t -> match e with Serve _ | Count _ => False | _ => True end -> V i (set_s t (exec (cfg_of i) (t_s t) e)).
+Proof.
+  intros [I HW] He. constructor; unfold set_s; cbn [t_s t_talked]; [apply inv_exec, I|].
+  intros c0. rewrite sessions_exec; [apply HW | exact He].
+Qed.
+
+Lemma V_open_core i t m c :
+  simc i t m -> V i t -> closed (t_s t) = false -> mem c (accepted (t_s t)) = false ->
+  V i (set_s t (run (cfg_of i) (t_s t) [AcceptRet c; Count c])).
+Proof.
+  intros S [I HW] EC EM. constructor; unfold set_s; cbn [t_s t_talked]; [apply inv_run, I|].
+  assert (ph (t_s t) = PAccept) as HP by (destruct (s_mode _ _ _ S) as [(? & _)|(_ & ? & _)]; [assumption | congruence]).
+  destruct (open_run (cfg_of i) (t_s t) c HP EC (s_loop _ _ _ S) EM) as (_ & _ & _ & _ & _ & _ & _ & _ & ES).
+  intros c0. rewrite ES. cbn [lookup]. destruct (Nat.eqb c c0) eqn:E0; [|apply HW].
+  apply Nat.eqb_eq in E0. subst c0. split; [unfold L; cbn [fst]; lia|]. cbn [snd mem existsb].
+  assert (lookup c (sessions (t_s t)) = None) as HN.
+  { destruct (lookup c (sessions (t_s t))) eqn:EL; [|reflexivity].
+    assert (In c (accepted (t_s t))) as Hin by (apply (i_sacc _ _ I); congruence). apply mem_In in Hin. congruence. }
+  specialize (HW c). rewrite HN in HW. now rewrite HW.
+Qed.
+
+Lemma V_close_core i t c : V i t -> V i (close_core i t c).
+Proof. intros HV. eapply V_ext; [exact (V_exec i t (Done c) HV Logic.I) | reflexivity | reflexivity]. Qed.
+
 Lemma top_V i t m o : sim i t m -> V i t -> V i (fst (top i t o)).
 Proof.
-  intros S [I HW]. destruct o as [c|cs|c|d]; cbn [top fst].
+  intros [S _ _] HV. pose proof HV as [I HW]. destruct o as [c|cs|c|d]; cbn [top fst].
   - (* Open *)
-    constructor; cbn [t_s t_talked]; [apply inv_run, I|].
-    destruct (closed (t_s t)) eqn:EC; [rewrite open_noop; auto; apply (s_loop _ _ _ S)|].
-    destruct (mem c (accepted (t_s t))) eqn:EM; [rewrite open_noop; auto; apply (s_loop _ _ _ S)|].
-    assert (ph (t_s t) = PAccept) as HP by (destruct (s_mode _ _ _ S) as [(? & _)|(_ & ? & _)]; [assumption | congruence]).
-    destruct (open_run (cfg_of i) (t_s t) c HP EC (s_loop _ _ _ S) EM) as (_ & _ & _ & _ & _ & _ & _ & _ & ES).
-    intros c0. rewrite ES. cbn [lookup]. destruct (Nat.eqb c c0) eqn:E0; [|apply HW].
-    apply Nat.eqb_eq in E0. subst c0. split; [unfold L; cbn [fst]; lia|]. cbn [snd mem existsb].
-    assert (lookup c (sessions (t_s t)) = None) as HN.
-    { destruct (lookup c (sessions (t_s t))) eqn:EL; [|reflexivity].
-      assert (In c (accepted (t_s t))) as Hin by (apply (i_sacc _ _ I); congruence). apply mem_In in Hin. congruence. }
-    specialize (HW c). rewrite HN in HW. now rewrite HW.
+    destruct (negb (closed (t_s t)) && negb (mem c (accepted (t_s t)))) eqn:G; cbn [andb].
+    + apply andb_true_iff in G. destruct G as [G1 G2]. apply negb_true_iff in G1, G2.
+      pose proof (V_open_core i t m c S HV G1 G2) as V1.
+      destruct (negb (t_bound t) && nth (t_hookn t) (i_hook i) false).
+      * eapply V_ext; [exact (V_close_core i _ c V1) | reflexivity | reflexivity].
+      * eapply V_ext; [exact (V_exec i _ (Start c) V1 Logic.I) | reflexivity | reflexivity].
+    + eapply V_ext; [exact HV | reflexivity | reflexivity].
   - (* Talk *)
-    set (live := filter (is_open (t_s t)) cs).
+    set (live := filter (is_live (t_s t)) cs).
     assert (W (cfg_of i) (t_talked t) live (t_s t)) as HW0.
     { intros c. specialize (HW c). destruct (lookup c (sessions (t_s t))); [|exact HW]. destruct HW as [H1 H2]. split; [exact H1|].
       destruct (mem c (t_talked t)); [exact H2|]. now destruct (mem c live). }
     destruct (W_talk (cfg_of i) (t_talked t) live live (t_s t) HW0) as [HW1 HE1].
-    { intros c Hc. apply mem_In in Hc as Hm. split; [exact Hm|]. now apply mem_filter in Hm. }
+    { intros c Hc. apply mem_In in Hc as Hm. split; [exact Hm|]. apply mem_filter in Hm. destruct Hm as [Hm _]. unfold is_live in Hm. now apply andb_true_iff in Hm. }
     constructor; cbn [t_s t_talked]; [apply inv_run, I|].
     set (s' := run (cfg_of i) (t_s t) (concat (map (talk_events (cfg_of i)) live))) in *.
     assert (inv (cfg_of i) s') as I' by (apply inv_run, I).
@@ -765,13 +903,12 @@ Proof.
       * apply mem_In in EM. specialize (HE1 c EM). now rewrite EL in HE1.
       * destruct (mem c (t_talked t)); [exact H2|]. exact H2.
     + rewrite HW1, orb_false_r. destruct (mem c live) eqn:EM; [|reflexivity].
-      apply mem_filter in EM. destruct EM as [EM _]. unfold is_open in EM. apply mem_In in EM. rewrite <- HS in EM.
+      apply mem_filter in EM. destruct EM as [EM _]. unfold is_live in EM. apply andb_true_iff in EM. destruct EM as [EM _]. apply mem_In in EM. rewrite <- HS in EM.
       now apply (i_has _ _ I') in EM.
   - (* Close *)
-    constructor; cbn [t_s t_talked]; [apply inv_run, I|].
-    intros c0. change (run (cfg_of i) (t_s t) [Done c]) with (exec (cfg_of i) (t_s t) (Done c)). rewrite sessions_exec; [apply HW | exact Logic.I].
+    now apply V_close_core.
   - (* Wait *)
-    assert (forall g, V i {| t_s := settle (cfg_of i) (run (cfg_of i) (t_s t) [TimerFire g; Callback g]); t_now := t_now t + d; t_dl := t_dl t; t_talked := t_talked t |}) as HF.
+    assert (forall g, V i {| t_s := settle (cfg_of i) (run (cfg_of i) (t_s t) [TimerFire g; Callback g]); t_now := t_now t + d; t_dl := t_dl t; t_talked := t_talked t; t_hookn := t_hookn t; t_bound := t_bound t |}) as HF.
     { intros g. constructor; cbn [t_s t_talked]; [apply inv_run, inv_run, I|]. intros c0. unfold settle.
       change (run (cfg_of i) (t_s t) [TimerFire g; Callback g]) with (exec (cfg_of i) (exec (cfg_of i) (t_s t) (TimerFire g)) (Callback g)).
       set (s2 := exec (cfg_of i) (exec (cfg_of i) (t_s t) (TimerFire g)) (Callback g)).
@@ -806,7 +943,7 @@ Proof.
   destruct (trun_sim i (i_ops i) (tinit i) (minit i) (sim_init i)) as [EP _].
   pose proof (trun_V i (i_ops i) (tinit i) (minit i) (sim_init i) (V_init i)) as HV.
   destruct (trun i (tinit i) (i_ops i)) as [t ps]. cbn [fst snd] in EP, HV. cbn [o_probes o_views o_alone].
-  rewrite EP, (list_eqb_refl probe_eqb probe_eqb_refl). cbn [andb].
+  rewrite EP, (list_eqb_refl probe_safe probe_safe_refl), mrun_length, Nat.eqb_refl. cbn [andb].
   rewrite map_length. unfold conn_ids. rewrite seq_length, Nat.eqb_refl, andb_true_r.
   apply orb_true_iff. right.
   rewrite (map_ext _ _ (fun c => view_of_V i t c HV)).
@@ -817,7 +954,11 @@ Lemma timed_run_is_schedule i ops : forall t, exists es, t_s (fst (trun i t ops)
 Proof.
   induction ops as [|o ops IH]; intros t; cbn [trun]; [now exists []|].
   assert (exists es, t_s (fst (top i t o)) = run (cfg_of i) (t_s t) es) as [es1 E1].
-  { destruct o as [c|cs|c|d]; cbn [top fst t_s]; try (eexists; reflexivity).
+  { destruct o as [c|cs|c|d]; cbn [top fst t_s close_core]; try (eexists; reflexivity).
+    { destruct (negb (closed (t_s t)) && negb (mem c (accepted (t_s t)))); cbn [andb]; [|now exists []].
+      destruct (negb (t_bound t) && nth (t_hookn t) (i_hook i) false); unfold close_core, set_s; cbn [t_s].
+      - exists ([AcceptRet c; Count c] ++ [Done c]). now rewrite run_app.
+      - eexists; reflexivity. }
     destruct (pendt (t_s t)) as [|g l]; [now exists []|].
     destruct (t_dl t <=? t_now t + d); [|now exists []].
     exists ([TimerFire g; Callback g] ++ [AcceptFail; FinalDisarm; Return]). unfold settle. now rewrite run_app. }
